@@ -291,7 +291,7 @@ func smallTuples() [][]ct.Comp {
 	out = append(out, [][]ct.Comp{
 		{ct.P, ct.Q}, {ct.Q, ct.P}, {ct.P, ct.R1}, {ct.R1, ct.P}, {ct.Q, ct.R1}, {ct.R1, ct.Q}, {ct.R1, ct.R2}, {ct.R2, ct.R1},
 		{ct.P, ct.R2}, {ct.R2, ct.P}, {ct.Q, ct.R2}, {ct.P, ct.S}, {ct.S, ct.P}, {ct.S, ct.Z}, {ct.Z, ct.S}, {ct.P, ct.Z}, {ct.Q, ct.S}, {ct.P, ct.L}, {ct.L, ct.S},
-		{ct.S, ct.R1}, {ct.S, ct.L}, {ct.Q, ct.Z}, {ct.Q, ct.L}, {ct.Z, ct.L}, {ct.L, ct.Z}, {ct.L, ct.P}, {ct.S, ct.Q}, {ct.P, ct.T9}, {ct.Q, ct.T9}, {ct.R1, ct.T9},
+		{ct.S, ct.R1}, {ct.S, ct.L}, {ct.Q, ct.Z}, {ct.Q, ct.L}, {ct.Z, ct.L}, {ct.L, ct.Z}, {ct.L, ct.P}, {ct.S, ct.Q}, {ct.P, ct.T9}, {ct.Q, ct.T9}, {ct.R1, ct.T9}, {ct.R2, ct.S}, {ct.L, ct.R2},
 		{ct.P, ct.Q, ct.R1}, {ct.P, ct.R1, ct.R2}, {ct.Q, ct.R1, ct.R2}, {ct.P, ct.Q, ct.S}, {ct.P, ct.Q, ct.R2}, {ct.S, ct.Z, ct.L}, {ct.P, ct.Q, ct.T9},
 		{ct.P, ct.Q, ct.R1, ct.R2},
 	}...)
